@@ -6,6 +6,7 @@ import (
 	"os"
 	"runtime"
 	"runtime/debug"
+	"strings"
 	"syscall"
 
 	"github.com/yuin/goldmark/text"
@@ -170,42 +171,37 @@ func runC12(r *core.Run) {
 					debug.SetPanicOnFault(true)
 					page := newROPage()
 					cv := core.NewConv(cfg)
-					return func(word []byte) uint64 {
-						src := page.load(word)
-						var out []byte
-						var h uint64
-						faulted, what, other := guarded(func() {
-							o, err, pan := cv.Convert(src)
-							if pan != nil {
-								panic(pan)
-							}
-							_ = err
-							out = o
-							h = core.Hash(out)
-							doc, pan := cv.Parse(src)
-							if pan != nil {
-								panic(pan)
-							}
-							if _, _, pan = cv.Render(src, doc); pan != nil {
-								panic(pan)
-							}
-						})
-						same := bytes.Equal(src, word)
-						page.unlock()
-						s.Evals.Add(2)
-						if faulted {
-							s.Violate("source-write:"+cv.Site, cfg.String(), word, nil, what, "no store into the source", "fault")
-						} else if other != nil {
-							if e, ok := other.(interface{ Addr() uintptr }); ok {
-								s.Violate("source-write:"+cv.Site, cfg.String(), word, nil, fmt.Sprintf("write fault at %#x (%v)", e.Addr(), other), "no store into the source", "fault")
-							}
-							// any other panic is C01's business
-						} else if !same {
-							s.Violate("source-changed", cfg.String(), word, nil, "source bytes differ after conversion", string(word), string(src))
-						}
-						return h
-					}
+					return func(word []byte) uint64 { return c12Doc(s, cv, cfg, page, word) }
 				})
+		}
+	}
+	// structured documents under the richest configurations
+	{
+		docs := c12StructuredDocs(r.Quick())
+		for _, cn := range []string{"all+cjk+attr+autoid", "gfm+autoid+unsafe+xhtml"} {
+			cfg := core.MustCfg(cn)
+			s := r.Sub("convert-structured/"+cn, fmt.Sprintf("%d documents from the structured generators (inline/block nesting, heading sequences with colliding texts, footnote reference/definition sequences, attribute blocks, replication families, the leak-prone documents of C06), each converted from a read-only page under %s", len(docs), cn))
+			s.Planned = int64(len(docs)) * 2
+			complete := core.ForEachIndex(len(docs), core.Workers(), func(w int) func(int) {
+				runtime.LockOSThread()
+				debug.SetPanicOnFault(true)
+				page := newROPage()
+				cv := core.NewConv(cfg)
+				return func(i int) {
+					if h := c12Doc(s, cv, cfg, page, docs[i]); h != 0 {
+						s.Distinct(h)
+					}
+					if i%(len(docs)/5+1) == 0 {
+						s.AddSample(core.Q(docs[i]))
+					}
+				}
+			}, r.Expired)
+			if !complete {
+				s.Incomplete("internal deadline reached")
+			}
+			s.States.Store(int64(len(docs)))
+			s.Transitions.Store(s.Evals.Load())
+			s.Done()
 		}
 	}
 	// util transformers
@@ -234,6 +230,107 @@ func runC12(r *core.Run) {
 				return core.Hash(word)
 			}
 		})
+}
+
+// c12Doc converts one document from a read-only page and reports write faults and changed bytes.
+func c12Doc(s *core.Sub, cv *core.Conv, cfg core.Cfg, page *roPage, word []byte) uint64 {
+	src := page.load(word)
+	if src == nil {
+		return 0
+	}
+	var out []byte
+	var h uint64
+	faulted, what, other := guarded(func() {
+		o, err, pan := cv.Convert(src)
+		if pan != nil {
+			panic(pan)
+		}
+		_ = err
+		out = o
+		h = core.Hash(out)
+		doc, pan := cv.Parse(src)
+		if pan != nil {
+			panic(pan)
+		}
+		if _, _, pan = cv.Render(src, doc); pan != nil {
+			panic(pan)
+		}
+	})
+	same := bytes.Equal(src, word)
+	page.unlock()
+	s.Evals.Add(2)
+	if faulted {
+		s.Violate("source-write:"+cv.Site, cfg.String(), word, nil, what, "no store into the source", "fault")
+	} else if other != nil {
+		if e, ok := other.(interface{ Addr() uintptr }); ok {
+			s.Violate("source-write:"+cv.Site, cfg.String(), word, nil, fmt.Sprintf("write fault at %#x (%v)", e.Addr(), other), "no store into the source", "fault")
+		}
+		// any other panic is C01's business
+	} else if !same {
+		s.Violate("source-changed", cfg.String(), word, nil, "source bytes differ after conversion", string(word), string(src))
+	}
+	return h
+}
+
+// c12StructuredDocs collects the documents of the structured generators used elsewhere (nesting, heading sequences,
+// footnote sequences, attribute blocks, replication families): constructs that token words of length ≤5 cannot reach.
+func c12StructuredDocs(quick bool) [][]byte {
+	var docs [][]byte
+	add := func(d []byte) { docs = append(docs, append([]byte{}, d...)) }
+	NestDocs(map[bool]int{true: 2, false: 3}[quick], add)
+	// heading sequences (collision-prone texts) of length ≤2/3
+	var heads []c15Head
+	for _, t := range c15Texts {
+		for f := 0; f < 4; f++ {
+			if f == 1 && (t == "" || t == "-" || t == "_" || t == "1") {
+				continue
+			}
+			heads = append(heads, c15Head{t, f})
+		}
+	}
+	var recH func(prefix string, d int)
+	recH = func(prefix string, d int) {
+		if d > 0 {
+			add([]byte(prefix))
+		}
+		if d == map[bool]int{true: 2, false: 3}[quick] {
+			return
+		}
+		for _, h := range heads {
+			p := prefix
+			if d > 0 {
+				p += "\n\n"
+			}
+			recH(p+h.md(), d+1)
+		}
+	}
+	recH("", 0)
+	menu := c16Menu()
+	for _, a := range menu {
+		add([]byte(a.md))
+		for _, b := range menu {
+			add([]byte(a.md + "\n\n" + b.md))
+		}
+	}
+	for _, t := range attrTemplates {
+		parts := strings.SplitN(t, "§", 2)
+		var rec func(w string, d int)
+		rec = func(w string, d int) {
+			add([]byte(parts[0] + w + parts[1]))
+			if d == 2 {
+				return
+			}
+			for _, tok := range attrToks {
+				rec(w+tok, d+1)
+			}
+		}
+		rec("", 0)
+	}
+	ReplDocs(map[bool]int{true: 12, false: 140}[quick], func(u, sep string, n int, doc []byte) { add(doc) })
+	for _, d := range c06Docs {
+		add([]byte(d))
+	}
+	return docs
 }
 
 func replayC12(r *core.Run, v *core.Violation) {
